@@ -85,8 +85,8 @@ ArgsFor(op) ==
       [] op = "Remove" -> {[A0 EXCEPT !.casc = c] : c \in CasClasses \cup {"sibkey"}}
       [] op = "Delete" -> {A0}
       [] op = "Update" ->
-           {WithBody([A0 EXCEPT !.exp = e, !.cb = cb], IF cb \in {"set", "retry", "err"} THEN "J2" ELSE "") :
-               e \in {"0", "E1"}, cb \in {"set", "del", "cancel", "setexp", "retry", "err"}}
+           {WithBody([A0 EXCEPT !.exp = e, !.cb = cb], IF cb \in {"set", "retry", "err", "touchset"} THEN "J2" ELSE "") :
+               e \in {"0", "E1"}, cb \in {"set", "del", "cancel", "setexp", "retry", "err", "touchset"}}
       [] op = "Incr" -> {[A0 EXCEPT !.amt = m, !.def = d, !.exp = e] : m \in {0, 1, 2}, d \in {0, 3}, e \in {"0", "E1"}}
       [] op = "Touch" -> {[A0 EXCEPT !.exp = e] : e \in ExpToks}
       [] op = "GetAndTouchRaw" -> {[A0 EXCEPT !.exp = e] : e \in ExpToks}
@@ -277,7 +277,11 @@ C11_OtherCollectionsUnchanged ==
 (* C17: every mutation of a key raises its revision number by exactly one (1 on creation) *)
 C17_RevIncrementsByOne ==
     [][\A c \in Colls, k \in Keys :
-         (Changed(c, k) /\ ~IsAbsent(store'[c][k])) => store'[c][k].rev = NextRev(store[c][k])]_vars
+         (Changed(c, k) /\ ~IsAbsent(store'[c][k])) =>
+            \* (an Update whose callback touches the key performs two mutations - the touch and the write - in one call)
+            IF last'.op = "Update" /\ last'.a.cb = "touchset" /\ HasBody(store[c][k])
+            THEN store'[c][k].rev = store[c][k].rev + 2
+            ELSE store'[c][k].rev = NextRev(store[c][k])]_vars
 (* C18: a sub-document write changes only the addressed property *)
 C18_OnlyAddressedProperty ==
     [][(last'.op \in {"WriteSubDoc", "SubdocInsert"} /\ last'.mut /\ HasBody(last'.pre) /\ ~last'.any) =>
